@@ -1889,7 +1889,8 @@ class InCaptionPhase(Phase):
         return self.parser.phases["inBody"].processCharacters(token)
 
     def startTagTableElement(self, token):
-        self.parser.parseError()
+        # The caption end tag is optional here; endTagCaption reports an
+        # error if something other than the caption is still open
         # XXX Have to duplicate logic here to find out if the tag is ignored
         ignoreEndTag = self.ignoreEndTagCaption()
         self.parser.phase.processEndTag(impliedTagToken("caption"))
@@ -1918,7 +1919,6 @@ class InCaptionPhase(Phase):
             self.parser.parseError()
 
     def endTagTable(self, token):
-        self.parser.parseError()
         ignoreEndTag = self.ignoreEndTagCaption()
         self.parser.phase.processEndTag(impliedTagToken("caption"))
         if not ignoreEndTag:
